@@ -26,9 +26,11 @@
     not(feature = "micromath")
 ))]
 compile_error!("internal_enhanced_float must only be enabled by another feature.");
-#[cfg(feature = "std")]
+#[cfg(all(feature = "std", not(rrtk_verif_shuttle)))]
 use alloc::sync::Arc;
-#[cfg(feature = "std")]
+#[cfg(all(feature = "std", rrtk_verif_shuttle))]
+use shuttle::sync::{Arc, Mutex, RwLock};
+#[cfg(all(feature = "std", not(rrtk_verif_shuttle)))]
 use std::sync::{Mutex, RwLock};
 #[cfg(feature = "alloc")]
 extern crate alloc;
